@@ -570,7 +570,10 @@ fn gen_doc_case(c: &mut Ctx, r: &mut Rng, tables: &[(&str, [Option<u16>; 256])])
                 3..=6 => { // Tj
                     if let Some(t) = cur {
                         let rep = repertoire(&t);
-                        let n = r.usize(12); let s: String = (0..n).map(|_| *r.pick(&rep)).collect();
+                        // every fourth string is made of the characters the literal-string writer has to treat specially
+                        // (parentheses balanced / unbalanced in any order, backslash) and a letter
+                        let special: Vec<char> = ['(', ')', '\\', '(', 'a'].iter().cloned().filter(|ch| rep.contains(ch)).collect();
+                        let n = r.usize(12); let s: String = if r.chance(1, 4) && !special.is_empty() { c.count("extract.structural_string"); (0..2 + r.usize(7)).map(|_| *r.pick(&special)).collect() } else { (0..n).map(|_| *r.pick(&rep)).collect() };
                         let bytes = encode_ref(&t, &s);
                         ops.push(Operation::new("Tj", vec![Object::String(bytes, if r.chance(1, 4) { StringFormat::Hexadecimal } else { StringFormat::Literal })]));
                         chunk.push_str(&s);
